@@ -104,6 +104,9 @@ class LKJCovariancePrior(LKJPrior):
         correlations = torch.matmul(torch.matmul(sd_diag_mat, X), sd_diag_mat)
         log_prob_corr = self.correlation_prior.log_prob(correlations)
         log_prob_sd = self.sd_prior.log_prob(marginal_sd)
+        if log_prob_sd.dim() > log_prob_corr.dim():
+            # an element-wise prior on the standard deviations: one (independent) term per standard deviation
+            log_prob_sd = log_prob_sd.sum(-1)
         return log_prob_corr + log_prob_sd
 
     def sample(self, sample_shape=torch.Size()):
